@@ -212,8 +212,11 @@ P = {
         "range_of (expand rows) for values and for formulas: tight bounding rectangle, every value at its absolute position; unbounded "
         "induction over rows and cells (pass-1 summary invariant, pass-2 pending-empties invariant). C04_rle_independent (two encodings "
         "with the same cell function read the same), C04_empties_inert / _shift_rows, C04_range_of_sound / _nothing, "
-        "C04_typing_canonical, C04_xtable_main (with attribute parsing and typing). No known class (F7 fixed). Tie: generated .ods "
-        "files (same grid under several run-length groupings, first used column != A, blank rows, covered cells, formula-only cells "
+        "C04_typing_canonical, C04_xtable_main (with attribute parsing and typing), C04_row_containers_transparent / _independent / "
+        "C04_table_items_main (the loop over the content of table:table: rows held in table:table-header-rows, table:table-rows, "
+        "table:table-row-group nested to any depth, with any neighbours, read as the same rows in document order), "
+        "C04_no_panic_table_loop. No known class (F7 fixed). Tie: generated .ods "
+        "files (same grid under several run-length groupings and row-holder arrangements, first used column != A, blank rows, covered cells, formula-only cells "
         "without cached value, huge repeats) through Ods::new + worksheet_range + worksheet_formula, and the get_range hook.",
    note=TB + " attribute-order irrelevance of get_datatype is sampled, not proved; text content of cells is C19's model; zip and quick-xml are outside.",
    technique="Coq proof (two-pass invariant induction over rows/cells; reduction to a bounding-box spec) + extracted-model correspondence on real .ods files",
@@ -365,3 +368,6 @@ STALE_REASON = ("temporarily not claimed: a shared model file this slice imports
 HOOK_COMMITS = ["6e4993e", "bb5031b", "a67f951", "bdf3a94", "d6d3370"]
 if __name__ == "__main__":
     main()
+    # the source baseline (tools/source_baseline.json) belongs to the same /repo HEAD as the manifest
+    import subprocess, sys
+    subprocess.call([sys.executable, os.path.join(ROOT, "tools", "gen_source_baseline.py")])
